@@ -90,7 +90,7 @@ pub fn check_edit(rep: &mut Report, model: &mut Model, cfg: &Cfg, ops: &[Op], b:
                 rep.traces_validated += 1;
                 match pred {
                     Ok(m) => {
-                        if let Some(d) = same_recovery(rec, &m) {
+                        if let Some(d) = same_recovery_l(rec, &m, cfg.layers & L_COMP != 0) {
                             rep.violation("corr", "corr:C04/repair.run", json!({}), &format!("model and implementation disagree (authenticated={auth}): {d}"), case());
                             return false;
                         }
